@@ -118,12 +118,12 @@ Proof.
       apply Z.le_trans with (1 + (1 + (2 * N + r + 3))); [|lia]. apply vdepth_tag_le; [lia|].
       intros y [<-|[]]. cbn [vdepth].
       assert (list_max (fun kv0 : value * value => let (k, x) := kv0 in Z.max (vdepth k) (vdepth x))
-                (map (fun kv0 : value * value => (fst kv0, encode_f orc n (snd kv0))) xs) <= 2 * N + r + 3); [|lia].
+                (map (fun kv0 : value * value => (str_key (fst kv0), encode_f orc n (snd kv0))) xs) <= 2 * N + r + 3); [|lia].
       apply list_max_le; [lia|]. intros [k x] Hin. apply in_map_iff in Hin as [[k0 x0] [Heq Hin]].
       cbn [fst snd] in Heq. inversion Heq; subst k x.
       rewrite forallb_forall in Hstr, Hch. specialize (Hstr _ Hin). specialize (Hch _ Hin). cbn [fst] in Hstr.
       apply andb_true_iff in Hch as [_ Hx].
-      assert (vdepth k0 = 0) by (destruct k0; try discriminate; reflexivity).
+      assert (vdepth (str_key k0) = 0) by (destruct k0; try discriminate; reflexivity).
       specialize (IH x0 Hx). lia.
     + destruct (dt_to_ts orc wall tz None); [|simple_depth]. destruct tz; simple_depth.
     + destruct k; cbn [vdepth list_max fold_right tag];
